@@ -35,6 +35,8 @@ func c03Durations() [][]string {
 	base := []string{"0", "0s", "1ns", "999ms", "1s", "1.5s", "59m59s", "1h", "1h0m0.5s", "16h", "23h59m59s", "24h", "24h0m0.000000001s", "24h1s", "25h", "100h",
 		"1440m", "86400s", "86400000ms", "86401s", "0.5h", ".5h", "1.h", "1h30m", "1us", "1µs", "1μs", "3600000000000ns",
 		fmt.Sprintf("%ds", vclock.EpochUnix), fmt.Sprintf("%ds", vclock.EpochUnix-1), fmt.Sprintf("%ds", vclock.EpochUnix+1),
+		// around the 45-day cap of automation certificates (1080 h) and the day after it
+		"1079h59m59s", "1080h", "1080h0m0.000000001s", "1080h0m1s", "1081h", "1103h59m59s", "1104h", "1104h0m1s",
 		"600000h", "2562047h47m16.854775807s", "9223372036854775807ns", "2562047h", "2540400h", "4294967296s", "4294967295s", "2147483648s"}
 	for _, b := range base {
 		add(b)
